@@ -134,6 +134,9 @@ func Load(dir string, overlay map[string][]byte) (*Prog, error) {
 			for _, file := range pkg.Syntax {
 				for _, d := range file.Decls {
 					if fd, ok := d.(*ast.FuncDecl); ok && fd.Body != nil {
+						if os.Getenv("SIALINT_NOSROA") == "" {
+							p.sroa(pkg.TypesInfo, fd.Body)
+						}
 						p.detemp(pkg.TypesInfo, fd.Body)
 						if os.Getenv("SIALINT_NOSEARCH") == "" {
 							p.desugarSearch(pkg.TypesInfo, fd.Body)
@@ -258,6 +261,7 @@ func (f *Func) Info() *types.Info { return f.Pkg.TypesInfo }
 func (f *Func) Graph() *cfgx.Graph {
 	if f.graph == nil {
 		f.graph = cfgx.NewGraph(f.Body, func(c *ast.CallExpr) bool { return !f.noReturn(c) })
+		f.pruneFlagEdges(f.graph)
 	}
 	return f.graph
 }
